@@ -324,8 +324,22 @@ func ruleSyncAfterWrite(c *Ctx, id string) {
 				continue
 			}
 			name := shortFn(fn)
-			syncs := callsIn(fn, "bbolt.fdatasync")
-			isSync := func(in ssa.Instruction) bool { return isCallTo(in, "bbolt.fdatasync") }
+			// a sync point is a call to the platform fdatasync, or to a package function that
+			// (with NoSync unset) cannot return success without having passed one (a wrapper)
+			var syncs []ssa.CallInstruction
+			eachInstr(fn, func(in ssa.Instruction) {
+				if ci, ok := in.(ssa.CallInstruction); ok && isSyncCall(ci, noSync, 0) {
+					syncs = append(syncs, ci)
+				}
+			})
+			isSync := func(in ssa.Instruction) bool {
+				for _, s := range syncs {
+					if s == in {
+						return true
+					}
+				}
+				return false
+			}
 			// (a) with NoSync=false every success path from a writeAt passes fdatasync
 			cut := cutByEnv(map[*types.Var]bool{noSync: false})
 			if name == "bbolt.(*DB).init" {
@@ -381,6 +395,45 @@ func ruleSyncAfterWrite(c *Ctx, id string) {
 			}
 		}
 	})
+}
+
+// isSyncCall: fdatasync itself, or a wrapper around it (bounded depth).
+func isSyncCall(ci ssa.CallInstruction, noSync *types.Var, depth int) bool {
+	callee := calleeOf(ci).Static
+	if callee == nil {
+		return false
+	}
+	if shortFn(callee) == "bbolt.fdatasync" {
+		return true
+	}
+	pk := fnPkg(callee)
+	if depth >= 2 || pk == nil || pk.Path() != rootPkg || len(callee.Blocks) == 0 || errResultIndex(callee.Signature) < 0 {
+		return false
+	}
+	var inner []ssa.Instruction
+	eachInstr(callee, func(in ssa.Instruction) {
+		if c2, ok := in.(ssa.CallInstruction); ok && c2 != ci && isSyncCall(c2, noSync, depth+1) {
+			inner = append(inner, in)
+		}
+	})
+	if len(inner) == 0 {
+		return false
+	}
+	stop := func(in ssa.Instruction) bool {
+		for _, x := range inner {
+			if x == in {
+				return true
+			}
+		}
+		return false
+	}
+	r := reach(nil, []*ssa.BasicBlock{callee.Blocks[0]}, stop, cutByEnv(map[*types.Var]bool{noSync: false}))
+	for _, ret := range nonErrorReturns(callee) {
+		if r[ret] {
+			return false
+		}
+	}
+	return true
 }
 
 // ---- C01.R3 the platform's fdatasync hands the descriptor to a sync primitive
